@@ -14,7 +14,6 @@ var rootCmd = &cobra.Command{
 
 // Execute runs the root command.
 func Execute() {
-	fmt.Println(len(os.Args))
 	if len(os.Args) == 1 {
 		os.Args = append(os.Args, "--help")
 	} else if len(os.Args) > 1 && !isSubcommand(os.Args[1]) {
